@@ -11,6 +11,9 @@ WRITER = {"timestamp_monotone", "timestamp_clock", "no_panic", "one_whole_frame"
 def run(ctx):
     ctx.build_mvh()
     ctx.mc("MC_Window", "MC_Window.cfg", timeout=1800)
+    # unbounded: the coded 64-bit arithmetic agrees with the rule for ALL 48-bit timestamps (inductive invariant, Apalache)
+    if not ctx.apalache("WindowInt", "WindowInt_fixed.cfg"):
+        raise vf.Inconclusive("Apalache did not discharge the inductive invariant of WindowInt (model of the current code)")
     rc, out = ctx.tlc("Gen_Signed", env={"MODE": "win", "VSEED": ctx.seed}, tag="gen:window", timeout=900)
     nvec = _stream.parse_vec_lines(out, ctx.path("winvec.ndjson"))
     if nvec != 12:
